@@ -15,6 +15,7 @@ class Checker:
         ap.add_argument("--seed", type=int, default=1)
         ap.add_argument("--shard", type=int, default=0)
         ap.add_argument("--known")
+        ap.add_argument("--budget-s", type=float, default=0.0)
         self.args = ap.parse_args()
         self.prop = prop
         self.t0 = time.time()
@@ -28,14 +29,25 @@ class Checker:
         if self.args.known and os.path.exists(self.args.known):
             self.known = [f for f in json.load(open(self.args.known)).get("findings", []) if f.get("property") == prop and f.get("status") == "open"]
 
+    def time_up(self, factor=1.0):
+        """true once the (logical) workload should stop because the wall-clock budget is used up; what was
+        not run is counted, never judged"""
+        b = self.args.budget_s
+        return b > 0 and time.time() - self.t0 > b * factor
+
     def records(self):
         if not self.args.log or not os.path.exists(self.args.log):
             return
         with open(self.args.log) as fh:
             for line in fh:
                 line = line.strip()
-                if line:
-                    yield json.loads(line)
+                if not line:
+                    continue
+                if self.time_up(2.0):
+                    # replaying is slower than logging for some oracles: the rest of the log is left unjudged
+                    self.count("log_records_left_unreplayed_by_time_budget")
+                    continue
+                yield json.loads(line)
 
     def count(self, k, n=1):
         self.counters[k] = self.counters.get(k, 0) + n
